@@ -502,14 +502,14 @@ fn run_case(c: &Case, out: &mut Outcome, flags: &mut (bool, bool, bool, bool)) {
                         }
                         if !seen {
                             let threads: Vec<String> = crate::procfs::self_threads().iter().map(|t| format!("{}:{}", t.comm, t.state)).collect();
-                            out.fail("reload-lost", format!("step {step}: the notified change of ({t:?}, {id}) was never looked at in 4000 hot_reload calls (event accepted by the channel: {sent_ok}; entry still cached: {}; threads: {threads:?})", by_type!(*t, reload_id_of, &cache, &id).is_some()));
+                            out.fail("reload-lost", format!("step {step}: the notified change of ({t:?}, {id}) was never looked at in 4000 hot_reload calls (event accepted by the channel: {sent_ok}; entry still cached: {}; threads: {threads:?}); crate log: {}", by_type!(*t, reload_id_of, &cache, &id).is_some(), crate::tracelog::tail(40)));
                             break;
                         }
                         src.tree().put(&id, t.ext(), format!("v{version}").into_bytes(), Variant::Buffer);
                     } else {
                         if !by_type!(*t, wait_reload, &cache, &id, before) {
                             let threads: Vec<String> = crate::procfs::self_threads().iter().map(|t| format!("{}:{}", t.comm, t.state)).collect();
-                            out.fail("reload-lost", format!("step {step}: the notified change of ({t:?}, {id}) was never applied (event accepted by the channel: {sent_ok}; threads: {threads:?})"));
+                            out.fail("reload-lost", format!("step {step}: the notified change of ({t:?}, {id}) was never applied (event accepted by the channel: {sent_ok}; threads: {threads:?}); crate log: {}", crate::tracelog::tail(40)));
                             break;
                         }
                         st.reloads += 1;
@@ -827,6 +827,7 @@ impl Prop for C13 {
         B_LIVE.store(0, SeqCst);
         let mut flags = (false, false, false, false);
         PANIC_ON_DROP.store(0, SeqCst);
+        let _trace = crate::tracelog::scoped_trace();
         run_case(&c, &mut out, &mut flags);
         out.nontrivial = flags.0;
         if flags.0 {
